@@ -27,6 +27,12 @@
    the mirror is a ghost counter (the Rust function has no such parameter): it
    is the number of [parse_setting] frames below the current one.
 
+   The boolean [fixed_ctor_ws] selects the fourth repair (/repo fdd053a): the
+   argument of a constructor value ([Original(NoAction)]) is parsed after a
+   [parse_ws] — the pinned code called [parse_namespaced] directly at the byte
+   after '(' , so that a blank there was an [IllegalName] error although white
+   space is skipped between every other pair of lexemes of the section.
+
    The native stack is modelled as a budget of frames of [parse_setting]
    ([stack = Some s]: room for [s] frames; [None]: unbounded).  A call nested in
    [depth] frames needs frame number [depth + 1]; when it does not exist the
@@ -306,6 +312,7 @@ Definition MAX_SETTING_DEPTH : nat := 64.
 Section Parser.
 Variable fixed : bool.
 Variable depth_fixed : bool.
+Variable fixed_ctor_ws : bool.
 Variable stack : option nat.
 Variable src : list N.
 
@@ -401,7 +408,10 @@ Definition setting_path (i : nat) : outcome (res (setting * nat)) :=
       do la1 <- lookahead_is LPAREN i1;
       match la1 with
       | Some j1 =>
-          do r2 <- parse_namespaced j1;
+          (* pinned code: [self.parse_namespaced(j)];
+             repaired code: [self.parse_namespaced(self.parse_ws(j))] *)
+          do j1' <- (if fixed_ctor_ws then parse_ws j1 else Done j1);
+          do r2 <- parse_namespaced j1';
           match r2 with
           | Err e => Done (Err e)
           | Ok (arg, j2) =>
@@ -599,14 +609,18 @@ End Parser.
    byte length of the text *)
 Definition fuel_for (src : list N) : nat := 2 * byte_len src + 4.
 
-Definition parse_header_gen (fixed depth_fixed required : bool) (stack : option nat) (fuel : nat)
-  (src : list N) : outcome hresult :=
-  parse fixed depth_fixed stack src required fuel.
+Definition parse_header_gen (fixed depth_fixed fixed_ctor_ws required : bool) (stack : option nat)
+  (fuel : nat) (src : list N) : outcome hresult :=
+  parse fixed depth_fixed fixed_ctor_ws stack src required fuel.
 
 (* the code as pinned (on an unbounded stack) *)
 Definition parse_header_orig (required : bool) : nat -> list N -> outcome hresult :=
-  parse_header_gen false false required None.
-(* the code after the first two repairs, without / with the nesting limit (on an
-   unbounded stack) *)
-Definition parse_header_fixed (depth_fixed required : bool) : nat -> list N -> outcome hresult :=
-  parse_header_gen true depth_fixed required None.
+  parse_header_gen false false false required None.
+(* the code after the first two repairs, without / with the nesting limit, without /
+   with the white-space skip before a constructor argument (on an unbounded stack) *)
+Definition parse_header_fixed (depth_fixed fixed_ctor_ws required : bool)
+  : nat -> list N -> outcome hresult :=
+  parse_header_gen true depth_fixed fixed_ctor_ws required None.
+(* the code of /repo after all four repairs *)
+Definition parse_header_now (required : bool) (src : list N) : outcome hresult :=
+  parse_header_gen true true true required None (fuel_for src) src.
